@@ -19,9 +19,9 @@ import (
 )
 
 type c06Container struct {
-	Restarts     int32
-	FinishedAgo  time.Duration // lastState.terminated.finishedAt = now - FinishedAgo (only if Restarts > 0)
-	Waiting      string        // waiting reason or ""
+	Restarts    int32
+	FinishedAgo time.Duration // lastState.terminated.finishedAt = now - FinishedAgo (only if Restarts > 0)
+	Waiting     string        // waiting reason or ""
 }
 
 type c06Pod struct {
